@@ -481,6 +481,18 @@ fn main() {
         "determinism" => determinism(&a),
         "selftest-replay" => selftest_replay(&a),
         "seqdiff" => seqdiff(&a),
+        "scripts" => {
+            // generator reach: dump the scripts of a range of run indices, one JSON object per line
+            let property = a.get("--property").unwrap_or_else(|| "C07".into());
+            let seed: u64 = a.get("--seed").and_then(|x| x.parse().ok()).unwrap_or(20261002);
+            let start: u64 = a.get("--start").and_then(|x| x.parse().ok()).unwrap_or(0);
+            let count: u64 = a.get("--count").and_then(|x| x.parse().ok()).unwrap_or(1000);
+            for i in start..start + count {
+                let (script, focus) = generate(&property, seed, i, a.flag("--thorough"));
+                println!("{}", serde_json::json!({"index": i, "focus": focus, "script": script}));
+            }
+            0
+        }
         x => {
             eprintln!("unknown command {x}");
             2
